@@ -65,9 +65,10 @@ def cmp_values(op, prop_value, filter_value, is_timestamp):
         a, b = _ts(prop_value), (None if isinstance(filter_value, (list, tuple)) else _ts(filter_value))
         if op == "in":
             bs = [_ts(x) for x in filter_value]
-            if a is None or any(x is None for x in bs):
+            if a is None or any(x is None and not isinstance(y, str) for x, y in zip(bs, filter_value)):
                 raise Unjudged("non-timestamp in timestamp comparison")
-            return a in bs
+            # (a listed string which is no timestamp is equal to no instant)
+            return a in [x for x in bs if x is not None]
         if a is None or b is None:
             raise Unjudged("non-timestamp in timestamp comparison")
         prop_value, filter_value = a, b
